@@ -352,3 +352,50 @@ def proj_map(log, mlanes, keys=(1, 2, 3)):
         elif k == "quiescent":
             out.append({"e": "quiescent", "drained": e["drained"]})
     return out
+
+
+# ----------------------------------------------------------------------------- C14 projection
+
+_TAG = re.compile(r"tag (\d+)")
+
+
+def proj_nocoalesce(log, slane="sup", clane="cmd"):
+    """events of Trace_NoCoalesce.tla"""
+    out = [{"e": "reset"}]
+    first_start = True
+    for e in log:
+        k = e["e"]
+        if k == "start":
+            if not first_start:
+                out.append({"e": "restart"})
+            first_start = False
+        elif k == "supply":
+            out.append({"e": "push", "v": e["v"]})
+        elif k == "req" and e["lane"] == slane and e["op"] in ("link", "sync", "unlink"):
+            out.append({"e": "req", "r": e["r"], "op": e["op"]})
+        elif k == "req" and e["lane"] == clane and e["op"] == "cmd":
+            m = _TAG.search(e.get("body", ""))
+            out.append({"e": "csent", "r": e["r"], "tag": int(m.group(1)) if m else -1})
+        elif k == "cmdh":
+            m = _TAG.search(e.get("v", ""))
+            out.append({"e": "chand", "tag": int(m.group(1)) if m else -2})
+        elif k == "frame" and e["lane"] == slane:
+            f = {"e": "frame", "r": e["r"], "kind": e["kind"]}
+            if e["kind"] == "event":
+                v = parse_int(e.get("body"))
+                if v is None:
+                    f["bad"] = True
+                    f["v"] = 0
+                else:
+                    f["v"] = v
+            out.append(f)
+        elif k == "sent":
+            out.append({"e": "asent", "t": e["node"], "v": e["v"], "ow": bool(e.get("ow", True))})
+        elif k == "out":
+            v = parse_int(e.get("body"))
+            out.append({"e": "aout", "t": e["node"], "v": v if v is not None else -999})
+        elif k in ("drop", "dropread", "eof", "frame_error"):
+            out.append({"e": "gone", "r": e["r"]})
+        elif k == "quiescent":
+            out.append({"e": "quiescent", "drained": e["drained"], "targets_drained": True})
+    return out
